@@ -187,7 +187,7 @@ func FrameCheck(root string, s *Step, r *StepResult) []*Violation {
 					kind = "dry-run"
 				}
 				inv := "C15/output-untouched"
-				if r.hasFired("WriteFile:short_write") {
+				if !iv.Dry && r.hasFired("WriteFile:short_write") {
 					inv = "C15/mid-write"
 				}
 				vs = append(vs, &Violation{Property: "C15", Invariant: inv,
